@@ -135,6 +135,9 @@ class Base:
             return v.t
         if v is None:
             return NONE_REF          # (only meaningful where a nullable reference is expected)
+        if isinstance(v, VFunc) and v.kind == "unmodelled":
+            # the value of an unmodelled attribute used as data (Path(x).name in a path join ...): an unconstrained object
+            return z3.FreshConst(Ref, "unmodelled_" + v.name.replace(".", "_"))
         if isinstance(v, bool):
             return z3.BoolVal(v)
         if isinstance(v, enum.Enum):
